@@ -4,8 +4,8 @@
     for the weighted draw ([oracle_guard]: the sampled position is below the number
     of unfinished sources, which is what rand guarantees). [srcs <> []]: the callers
     refuse an empty file list. *)
+From TU Require Import RNG_Model RNG_Proofs RNG_Props.
 From TU Require Import Base C07_Model C07_Proofs C07_Specs C07_Top C07_Weighted C07_Seeded.
-From TU Require RNG_Model RNG_Proofs RNG_Props.
 Require Import Permutation.
 
 (** Termination, every strategy, every oracle in range: the fuel
